@@ -105,9 +105,12 @@ func runRace(raw json.RawMessage) (interface{}, error) {
 	v.CleanupOnce()
 	keysLeft := len(v.Keys())
 	// wait for the closer only when the cleanup did take the key out (generous: loaded machines)
-	deadline := time.Now().Add(15 * time.Second)
+	deadline := time.Now().Add(closerWait())
 	for keysLeft == 0 && pooled != nil && pooled.GetState() != connectivity.Shutdown && time.Now().Before(deadline) {
 		time.Sleep(200 * time.Microsecond)
+	}
+	if keysLeft == 0 && pooled != nil && pooled.GetState() != connectivity.Shutdown {
+		closerGaveUp = true
 	}
 	time.Sleep(2 * time.Millisecond)
 	open := 0
